@@ -34,8 +34,10 @@ COMPONENTS = {
 }
 ASSUMPTIONS = [
     'RefHeap encodes the documented contract of each function (DESIGN.md Appendix A)',
-    'corners the documentation leaves open are excluded from generation: empty search/separator strings, the return '
-    'value of arrayDelete, comparator/matcher callbacks, explicit null for defaulted arguments, negative zero',
+    'corners the documentation leaves open are excluded from generation: empty search/separator strings (except in '
+    'stringReplace, where the str model is unambiguous), the return value of arrayDelete, arbitrary functions as '
+    'comparator / matcher (four simulated compare functions and one simulated match function, all pure and total, ARE '
+    'generated and modelled), explicit null for defaulted arguments, negative zero',
 ]
 
 
